@@ -50,7 +50,7 @@ def st_file(draw, idx):
             vals = draw(st.lists(st.integers(0, 2**31 - 1), min_size=n, max_size=n))
         else:
             kind = draw(st.sampled_from(["mixed", "mixed", "nanprefix", "allnan",
-                                         "plain"]))
+                                         "plain", "inttail"]))
             if kind == "allnan":
                 vals = [float("nan")] * n
             elif kind == "plain":
@@ -63,6 +63,15 @@ def st_file(draw, idx):
                     k = draw(st.integers(1, n))
                     vals = [float("nan")] * k + vals[k:]
         feats[nm] = {"vals": vals, "comp": draw(st_composition(n))}
+        if nm not in INT_FEATS and kind == "inttail" and n >= 2:
+            # the last events are appended as integer-typed data (python ints
+            # event by event, or one integer array) to the float feature
+            k = draw(st.integers(1, min(n - 1, 6)))
+            tail = draw(st.lists(st.integers(0, 1000), min_size=k, max_size=k))
+            feats[nm]["vals"] = vals[:n - k] + [float(t) for t in tail]
+            feats[nm]["comp"] = draw(st_composition(n - k)) + draw(
+                st.sampled_from([[k], [1] * k]))
+            feats[nm]["intblocks"] = True
     rounds = max(len(f["comp"]) for f in feats.values())
     return {
         "n": n, "feats": feats,
@@ -121,7 +130,11 @@ def _write_file(path, fs, idx):
     for r in range(rounds):
         for nm in sorted(blocks):
             if r < len(blocks[nm]):
-                hw.store_feature(nm, blocks[nm][r])
+                blk = blocks[nm][r]
+                if fs["feats"][nm].get("intblocks") and r > 0 \
+                        and np.all(np.abs(blk) < 2**31) and np.all(blk == np.round(blk)):
+                    blk = int(blk[0]) if len(blk) == 1 else blk.astype(np.int64)
+                hw.store_feature(nm, blk)
         if fs["reopen"][r] and r < rounds - 1:
             hw.__exit__(None, None, None)
             hw = RTDCWriter(path, mode="append")
@@ -210,6 +223,8 @@ def _run(spec, rec, d):
             if multi and hasnan:
                 hist[nm] = "append-history-with-nan"
                 rec.cls("multi-append+nan")
+                if f.get("intblocks"):
+                    rec.cls("multi-append+nan+integer-typed-append")
             else:
                 hist.setdefault(nm, "plain")
     stripped = any(fs["strip"] for fs in files)
